@@ -1362,6 +1362,112 @@ func extractC05(c *Ctx) error {
 		c.P("Definition consensus_package_level_maps : Z := %d. (* package-level vars with a map / sync type in x/consensus/keeper(/consensus) *)", nv)
 	}
 
+	// ---- skyway: the bytes to sign stored with a batch follow the chain's compass ----
+	{
+		sb, err := c.Parse("x/skyway/keeper/batch.go")
+		if err != nil {
+			return err
+		}
+		rf := FindFunc(sb, "Keeper", "refreshOpenBatchCheckpoints")
+		if rf == nil {
+			return fmt.Errorf("Keeper.refreshOpenBatchCheckpoints not found")
+		}
+		// the loop over the open batches: every way a batch can be skipped
+		var loop *ast.RangeStmt
+		for _, st := range rf.Body.List {
+			if rs, ok := st.(*ast.RangeStmt); ok && c05norm(c.Src(rs.X)) == "batches" {
+				if loop != nil {
+					return fmt.Errorf("refreshOpenBatchCheckpoints: more than one loop over batches")
+				}
+				loop = rs
+			}
+		}
+		if loop == nil {
+			return fmt.Errorf("refreshOpenBatchCheckpoints: `for _, batch := range batches` not found")
+		}
+		var skips []string
+		ast.Inspect(loop.Body, func(n ast.Node) bool {
+			is, ok := n.(*ast.IfStmt)
+			if !ok {
+				return true
+			}
+			leaves := false
+			ast.Inspect(is.Body, func(m ast.Node) bool {
+				if bs, ok := m.(*ast.BranchStmt); ok && (bs.Tok == token.CONTINUE || bs.Tok == token.BREAK || bs.Tok == token.GOTO) {
+					leaves = true
+				}
+				if rs, ok := m.(*ast.ReturnStmt); ok && len(rs.Results) == 1 && c05norm(c.Src(rs.Results[0])) == "nil" {
+					leaves = true // a silent early exit leaves the remaining batches as they are
+				}
+				return true
+			})
+			if leaves {
+				skips = append(skips, CoqStr(c05norm(c.Src(is.Cond))))
+			}
+			return true
+		})
+		c.P("Definition batch_refresh_skip_conditions : list string := [%s]. (* refreshOpenBatchCheckpoints: conditions under which an open batch is left as it is *)", strings.Join(skips, "; "))
+		lb := c05norm(c.Src(loop.Body))
+		c.P("Definition batch_refresh_rewrites_bytes : bool := %v. (* bts, err := batch.GetCheckpoint(compassID) ... batch.BytesToSign = bts ... store.Set(key, batch) ... DeleteBatchConfirms *)",
+			strings.Contains(lb, "bts,err:=batch.GetCheckpoint(compassID)") && strings.Contains(lb, "batch.BytesToSign=bts") &&
+				strings.Contains(lb, "store.Set(types.GetOutgoingTxBatchKey(batch.TokenContract,batch.BatchNonce),k.cdc.MustMarshal(&externalBatch))") &&
+				strings.Contains(lb, "k.DeleteBatchConfirms(ctx,batch)"))
+		c.P("Definition batch_refresh_reads_all_open_batches : bool := %v.", strings.Contains(c05norm(c.Src(rf.Body)), "batches,err:=k.GetOutgoingTxBatches(ctx)"))
+		sk, err := c.Parse("x/skyway/keeper/keeper.go")
+		if err != nil {
+			return err
+		}
+		sub := false
+		for _, d := range sk.Decls {
+			if fd, ok := d.(*ast.FuncDecl); ok && fd.Body != nil {
+				b := c05norm(c.Src(fd.Body))
+				if strings.Contains(b, "eventbus.EVMActivatedChain().Subscribe(") &&
+					strings.Contains(b, "iferr:=k.refreshOpenBatchCheckpoints(ctx,e.ChainReferenceID,string(e.SmartContractUniqueID));err!=nil{returnerr}") {
+					sub = true
+				}
+			}
+		}
+		c.P("Definition batch_refresh_on_compass_activation : bool := %v. (* the skyway subscriber of EVMActivatedChain calls it with the event's chain and compass id *)", sub)
+		ue := FindFunc(sb, "Keeper", "UpdateBatchGasEstimate")
+		okUE := false
+		if ue != nil {
+			b := c05norm(c.Src(ue.Body))
+			okUE = strings.Contains(b, "entity.GasEstimate=estimate") && strings.Contains(b, "bts,err:=entity.GetCheckpoint(string(ci.SmartContractUniqueID))") && strings.Contains(b, "entity.BytesToSign=bts")
+		}
+		c.P("Definition batch_estimate_election_rewrites_bytes : bool := %v.", okUE)
+		// every write of a batch's BytesToSign in the skyway keeper
+		var writes []string
+		kfs, err := c.ParseDir("x/skyway/keeper")
+		if err != nil {
+			return err
+		}
+		for _, f := range kfs {
+			if strings.Contains(filepath.Base(c.Fset.File(f.Pos()).Name()), "verif_hooks") {
+				continue
+			}
+			for _, d := range f.Decls {
+				fd, ok := d.(*ast.FuncDecl)
+				if !ok || fd.Body == nil {
+					continue
+				}
+				ast.Inspect(fd.Body, func(n ast.Node) bool {
+					as, ok := n.(*ast.AssignStmt)
+					if !ok {
+						return true
+					}
+					for _, l := range as.Lhs {
+						if se, ok := l.(*ast.SelectorExpr); ok && se.Sel.Name == "BytesToSign" {
+							writes = append(writes, CoqStr(fd.Name.Name+":"+c05norm(c.Src(as))))
+						}
+					}
+					return true
+				})
+			}
+		}
+		sort.Strings(writes)
+		c.P("Definition batch_bytes_to_sign_writes : list string := [%s].", strings.Join(writes, "; "))
+	}
+
 	if len(errs) > 0 {
 		sort.Strings(errs)
 		return fmt.Errorf("%s", strings.Join(errs, "\n"))
